@@ -19,6 +19,7 @@ VTYPES = {
     "t8a4": ("cv::Triv<8,4>", 8, 4, True),
     "obj": ("cv::Obj", 8, 8, False),
     "obj4": ("cv::Obj4", 4, 4, False),
+    "objtd": ("cv::ObjTD", 8, 8, False),
 }
 
 
@@ -179,6 +180,8 @@ OBJ_LISTS = [
     PL("ObjMixed", F("obj4"), COUNT8, V("obj"), P("u8")),
     PL("ObjVaryingAligned16", COUNT8, V("obj", 16), P("obj4")),
     PL("ObjFixedAligned16", P("obj4"), F("obj", 16)),
+    PL("ObjTDPlainFixed", P("objtd"), F("objtd")),
+    PL("ObjTDVarying", COUNT8, V("objtd"), P("u32")),
 ]
 
 QUICK_LISTS = TEST_LISTS + CORNER_LISTS + OBJ_LISTS
